@@ -774,6 +774,12 @@ func (r *runner) calculateBranch(ctx context.Context, curNodeKey string, startCh
 			delete(skippedNodes, selected)
 		}
 	}
+	// Likewise a direct successor: the edge triggers it whatever the branches select. Reporting it as
+	// skipped and as a ready dependency in the same breath made the outcome depend on whether its other
+	// predecessors had reported their skips before or after this node completed (eager mode).
+	for _, direct := range startChan.controls {
+		delete(skippedNodes, direct)
+	}
 	for skipped := range skippedNodes {
 		skippedNodeList = append(skippedNodeList, skipped)
 	}
